@@ -6,6 +6,7 @@ import (
 	"bufio"
 	"encoding/json"
 	"fmt"
+	"net"
 	"os"
 	"runtime/debug"
 	"strconv"
@@ -164,4 +165,18 @@ func B(b bool) string {
 		return "T"
 	}
 	return "F"
+}
+
+// Listen is net.Listen("tcp", addr) that waits when the machine has run out of ephemeral ports for a moment (thousands of
+// short-lived loopback connections of several harnesses leave sockets in TIME_WAIT) instead of giving up at once
+func Listen(addr string) (net.Listener, error) {
+	var l net.Listener
+	var err error
+	for i := 0; i < 200; i++ {
+		if l, err = net.Listen("tcp", addr); err == nil {
+			return l, nil
+		}
+		time.Sleep(50 * time.Millisecond)
+	}
+	return nil, err
 }
